@@ -2,6 +2,7 @@ package upstream
 
 import (
 	"crypto/tls"
+	"slices"
 	"sync"
 
 	"github.com/prometheus/client_golang/prometheus"
@@ -137,6 +138,11 @@ func (m *LoadBalancedManager) RemoveConn(u Upstream) {
 
 	lb, ok := m.localUpstreams[u.EndpointID()]
 	if !ok {
+		return
+	}
+	if !slices.Contains(lb.upstreams, u) {
+		// Already removed, such as by the proxy after the upstream signalled
+		// it is no longer accepting connections.
 		return
 	}
 	if lb.Remove(u) {
